@@ -478,6 +478,53 @@ func genHookLocks(sb *strings.Builder) {
 		}
 		return true
 	})
+	// the removal itself: the one loop over c.hooks takes out the entry that IS this registration (`hook == h`) — not one
+	// that merely has the same query or the same hook value — and only that one
+	var loops []*ast.RangeStmt
+	ast.Inspect(fd.Body, func(nd ast.Node) bool {
+		if rs, ok := nd.(*ast.RangeStmt); ok {
+			loops = append(loops, rs)
+		}
+		if _, ok := nd.(*ast.ForStmt); ok {
+			die("RegisteredHook.Cancel: unexpected for statement")
+		}
+		return true
+	})
+	if len(loops) != 1 || exprString(fset2, loops[0].X) != "c.hooks" || len(loops[0].Body.List) != 1 {
+		die("RegisteredHook.Cancel: expected one loop over c.hooks with one statement")
+	}
+	ifs, ok := loops[0].Body.List[0].(*ast.IfStmt)
+	kn, vn := "", ""
+	if id, ok := loops[0].Key.(*ast.Ident); ok {
+		kn = id.Name
+	}
+	if id, ok := loops[0].Value.(*ast.Ident); ok {
+		vn = id.Name
+	}
+	if !ok || ifs.Init != nil || ifs.Else != nil || kn == "" || vn == "" || (exprString(fset2, ifs.Cond) != vn+" == h" && exprString(fset2, ifs.Cond) != "h == "+vn) {
+		die("RegisteredHook.Cancel: the loop does not test `%s == h` (the registration itself)", vn)
+	}
+	var body []string
+	for _, st := range ifs.Body.List {
+		switch x := st.(type) {
+		case *ast.AssignStmt:
+			if len(x.Lhs) != 1 || len(x.Rhs) != 1 {
+				die("RegisteredHook.Cancel: unexpected assignment in the removal")
+			}
+			body = append(body, exprString(fset2, x.Lhs[0])+" "+x.Tok.String()+" "+exprString(fset2, x.Rhs[0]))
+		case *ast.ReturnStmt:
+			body = append(body, "return")
+		case *ast.ExprStmt:
+			if !isVerifEventCall(x.X) {
+				die("RegisteredHook.Cancel: unexpected statement in the removal")
+			}
+		default:
+			die("RegisteredHook.Cancel: unexpected statement %T in the removal", st)
+		}
+	}
+	if got, want := strings.Join(body, "; "), "c.hooks = append(c.hooks[:"+kn+"], c.hooks["+kn+"+1:]...); return"; got != want {
+		die("RegisteredHook.Cancel: the removal is not `%s` but `%s`", want, got)
+	}
 	sb.WriteString("/-- Does `RegisteredHook.Cancel` (database/hook.go) hold `hooksLock` exclusively (`Lock(); defer Unlock()`) while it\n")
 	sb.WriteString("    removes the hook? -/\n")
 	fmt.Fprintf(sb, "def hookCancelWriteLocked : Bool := %v\n\n", excl)
